@@ -2204,7 +2204,9 @@ def _is_json_serializable(item):
                 return False
         else:
             return True
-    if isinstance(item, (list, tuple, set)):
+    # (a tuple or a set would be written as a json list and come back as a list: like int /
+    # float keys above they are "serializable but not recoverable as such" and are pickled)
+    if isinstance(item, list):
         for val in item:
             if not _is_json_serializable(val):
                 return False
